@@ -5,15 +5,18 @@ import engine as E
 
 PROTOS = ["rtmp", "flv", "wsflv", "ts", "wsts"]
 BOUND_US = 100000   # delivery / call latency bound of the property: 100 ms
+# frame body lengths (0 = the driver's small / several-chunk pool); the big ones are several times any piece size
+# a session could cut a write into (16 KB, 32 KB, 64 KB)
+SIZES = [0, 0, 0, 40000, 70000, 40000, 150000]
 
 
 def write_cfg(name, spec, n, parts, ws, maxpub, maxread, maxstall, maxsweep, healthy, invs=None, prop=None,
-              view=None, emit=False):
+              view=None, emit=False, maxleave=0):
     lines = ["SPECIFICATION " + spec, "CONSTANTS", '  Cons = {"s1", "s2"}',
              '  Healthy = {"h"}' if healthy else "  Healthy = {}",
              "  N = %d" % n, "  HCap = 64", "  Parts = %d" % parts, "  WsMode = %s" % ("TRUE" if ws else "FALSE"),
              "  MaxPub = %d" % maxpub, "  MaxRead = %d" % maxread, "  MaxStall = %d" % maxstall,
-             "  MaxSweep = %d" % maxsweep]
+             "  MaxSweep = %d" % maxsweep, "  MaxLeave = %d" % maxleave]
     if invs:
         lines.append("INVARIANTS " + invs)
     if prop:
@@ -73,7 +76,7 @@ def run(ctx):
     kinds = ["key", "inter", "inter", "aud", "meta"]
     for n in (1, 2, 3):
         cfg = write_cfg("MC_Backpressure_gen_%d.cfg" % n, "GSpec", n, 1, False, 5 if q else 6, 3 if q else 4, 2,
-                        2 if q else 3, True, invs="Quiescent QueueBound WholeUnits", view="GView", emit=True)
+                        2 if q else 3, True, invs="Quiescent QueueBound WholeUnits", view="GView", emit=True, maxleave=1)
         res = E.tlc(ctx, "MC_Backpressure", cfg, timeout=1500, deadlock=False)
         E.require_design_ok(ctx, res, cfg)
         g = E.Graph.load(res)
@@ -82,8 +85,10 @@ def run(ctx):
                 (n, res["distinct"], g.nedges, len(paths), ncov))
         for p in paths:
             for proto in PROTOS:
-                # the first publish hands a fresh consumer the cached headers as well: it is done while all read
-                steps = [{"name": "PubArrive"}, {"name": "Join"}, {"name": "Publish", "t": "key"}]
+                # the publisher sends its sequence headers, the consumers join, and the first frame (which hands a
+                # fresh consumer the cached headers as well) is published while all of them read
+                steps = [{"name": "PubArrive"}, {"name": "Publish", "t": "vsh"}, {"name": "Publish", "t": "ash"},
+                         {"name": "Join"}, {"name": "Publish", "t": "key"}]
                 first = False
                 for a in p:
                     st = {"name": a["name"]}
@@ -91,8 +96,13 @@ def run(ctx):
                         st["c"] = a["c"]
                     if a["name"] == "Publish":
                         st["t"] = "key" if first else kinds[ctx.rng.randrange(len(kinds))]
+                        if st["t"] in ("key", "inter", "aud"):
+                            st["n"] = SIZES[ctx.rng.randrange(len(SIZES))]
                         first = False
                     steps.append(st)
+                    if a["name"] == "PubArrive":      # a returning publisher starts with its headers and a key frame
+                        steps += [{"name": "Publish", "t": "vsh"}, {"name": "Publish", "t": "ash"}]
+                        first = True
                 scen.append({"sc": len(scen), "cfgId": "%s-%d" % (proto, n),
                              "cfg": {"proto": proto, "n": n, "boundUs": BOUND_US}, "steps": steps})
     sp, tp = ctx.path("scen.ndjson"), ctx.path("trace.ndjson")
